@@ -130,6 +130,8 @@ def write_evidence(pid, cfg, tier, seed, results, violations, known_hits, inconc
         unit_rows.append(row)
         solver_s += r.solver_s
         cmds.append(r.cmd)
+        for fn in r.functions[:400]:
+            functions.append('%s %s:%s [%s] text-sha256=%s' % (r.name, fn['file'], fn['line'], fn['selector'], fn['sha256']))
         if r.bounded:
             bounded_ev += int(r.extra.get('evaluations', r.obligations) or 0)
             bounded_nt += int(r.extra.get('distinct_nontrivial', 0) or 0)
